@@ -241,9 +241,12 @@ class Index:
 
     def find(self, name, ty=None, kinds=("FunctionDecl", "CXXMethodDecl"), nparams=None):
         res = []
+
+        def unq(t):          # the same type is printed with or without namespace qualifiers depending on the context
+            return re.sub(r"\b\w+::", "", t or "")
         for d in self.defs:
             if d.get("kind") in kinds and d.get("name") == name:
-                if ty is not None and d.get("type", {}).get("qualType") != ty:
+                if ty is not None and unq(d.get("type", {}).get("qualType")) != unq(ty):
                     continue
                 if nparams is not None and len(params_of(d)) != nparams:
                     continue
